@@ -1,0 +1,23 @@
+//go:build verif
+
+package collect
+
+// Verification hooks for property C16 (add-only, no behaviour).
+
+// VerifC16HashSeed is the seed of the deterministic stress-relief sampling hash.
+const VerifC16HashSeed uint64 = hashSeed
+
+// VerifC16SpansWaiting returns the number of spans handed to the collector's workers that have not
+// been fully processed yet (sum of the workers' own atomic counters), so a harness can wait for
+// the worker goroutines to become idle instead of sleeping.
+func VerifC16SpansWaiting(c Collector) int64 {
+	i, ok := c.(*InMemCollector)
+	if !ok {
+		return 0
+	}
+	var n int64
+	for _, w := range i.workers {
+		n += w.localSpansWaiting.Load()
+	}
+	return n
+}
